@@ -358,7 +358,7 @@ func c11Run(c *Ctx) {
 		Lines(Var("ob", "{\u09b8\u09ae\u09df: [], \u09ac\u09dc: [1]}"), Var("arr3", "[9, 2, 3]"), "ob.\u09b8\u09ae\u09df = arr3;", Print("ob.\u09b8\u09ae\u09df"), "ob.\u09b8\u09ae\u09df[0] = 7;", Print("arr3"), "ob.\u09ac\u09dc = "+BI("append", "ob.\u09ac\u09dc", "2")+";", Print("ob.\u09ac\u09dc"), Print(BI("len", "ob.\u09b8\u09ae\u09df"))))
 	// arrays that come from the listing built-ins are arrays like any other; an element write yields the value written
 	selfAppend = append(selfAppend,
-		Lines(Var("ks", BI("keys", "{b: 2, a: 1}")), Print(BI("len", "ks")), Var("al", "ks"), "ks[0] = \"z\";", Print("al"), Print(BI("append", "ks", "1")), Print(BI("remove", "ks", "0")), Print("ks"), Var("vs", BI("values", "{p: [1], q: 2}")), Print(BI("len", "vs")+" + "+BI("len", BI("append", "vs", "3"))), "vs[1] = vs[0];", Print("vs"), Print(`"before"`), Print("ks[2]"), Print(`"AFTER"`)),
+		Lines(Var("ks", BI("keys", "{only: 1}")), Print(BI("len", "ks")), Print("ks[0]"), Var("al", "ks"), "ks[0] = \"z\";", Print("al"), Print(BI("append", "ks", "1")), Print(BI("remove", "ks", "0")), Print("ks"), Var("vs", BI("values", "{p: [1]}")), Print(BI("len", "vs")+" + "+BI("len", BI("append", "vs", "3"))), "vs[0][0] = 5;", Print("vs"), Var("e", BI("keys", "{}")), Print(BI("len", "e")), Print(BI("append", "e", "9")), Print(`"before"`), Print("ks[2]"), Print(`"AFTER"`)),
 		Lines(Var("a", "[1, 2, 3]"), Var("b", "[0, 0]"), "b[0] = a[2] = 7;", Print("a"), Print("b"), Var("g", "[0, 0, 0]"), "g[0] = g[2] = [4];", "g[0][0] = 8;", Print("g"), Var("row", "(g[1] = [5, 5])"), "row[0] = 6;", Print("g[1]"), Fun("grow", "x", " x[0] = x[0] + 1; "+Ret("x")+" "), Var("h", "[0, 0]"), Print("grow(h[1] = [6])"), Print("h"), Print("(a[0] = 9) + (a[1] = 1)"), Print("a")))
 	// a parameter spelled like its own function still holds the array that was passed
 	selfAppend = append(selfAppend,
